@@ -48,7 +48,7 @@ var (
 func genC13s(t *rapid.T) c13sScenario {
 	sc := c13sScenario{
 		MinLength: rapid.SampledFrom([]string{"", "", "100", "2kb"}).Draw(t, "minLength"),
-		Filter:    rapid.SampledFrom([]string{"", "", "json|xml", "image"}).Draw(t, "filter"),
+		Filter:    rapid.SampledFrom([]string{"", "", "json|xml", "image", ".*", "json|"}).Draw(t, "filter"),
 		Updated:   rapid.Bool().Draw(t, "updated"),
 		CT:        rapid.SampledFrom([]string{"text/plain", "application/json", "image/png", "", "application/xml"}).Draw(t, "ct"),
 		AE:        rapid.SampledFrom([]string{"", "gzip", "br", "gzip, br", "deflate", "br, gzip", "pack200-gzip, gzip", "x-br, br", "x-gzip"}).Draw(t, "ae"),
@@ -246,7 +246,8 @@ var c14sAddrs = []string{"127.0.3.1:0", "127.0.3.2:0"}
 
 func genC14s(t *rapid.T) c14sScenario {
 	sc := c14sScenario{Between: rapid.IntRange(0, 9).Draw(t, "between") < 7}
-	hostPool := []string{"aa.test", "bb.test", "cc.test"}
+	// host names are compared as written (a configured host with an upper-case letter is legal)
+	hostPool := []string{"aa.test", "bb.test", "cc.test", "AA.test", "Shop.BB.test"}
 	prefixPool := []string{"/a", "/a/b", "/b", "/api", "/search?type=img", "/a%20b", "/q?"}
 	n := rapid.IntRange(1, 5).Draw(t, "nLocs")
 	for i := 0; i < n; i++ {
